@@ -563,9 +563,9 @@ struct SeqRun
 
     void twin_probe(int k, const Found& f, const char* phase)
     {
-        if (!twins_in_sync)
-            return; // S is ahead of R / D in the middle of a step
-        if (R)
+        // D receives every call S receives, in the same order, so it can be compared at any moment;
+        // R executes a range as one call and is behind S in the middle of a step
+        if (R && twins_in_sync)
         {
             Found g = quiet_find(*R, k);
             eval("C18");
@@ -673,19 +673,7 @@ struct SeqRun
         {
             Obs d = read_obs(*D);
             eval("C20");
-            if (is_ttl())
-            {
-                // as for the range-driven twin: the instances may hold different numbers of expired,
-                // not yet removed entries (S is looked at more often); every key is compared by the probes
-                if (d.size < (int64_t)live.size() || (tr.has_capacity && d.size > (int64_t)cfg.capacity) || d.empty != (d.size == 0))
-                {
-                    if (fail({"C20"}, "clear.twin_size_bounds",
-                             "size() of the freshly constructed instance (" + std::to_string(d.size) + ") outside [live, capacity]", true))
-                        return;
-                    D.reset();
-                }
-            }
-            else if (d.size != o.size || d.empty != o.empty)
+            if (d.size != o.size || d.empty != o.empty)
             {
                 if (fail({"C20"}, "clear.twin_size",
                          "size() differs between cleared (" + std::to_string(o.size) + ") and fresh (" +
@@ -806,6 +794,7 @@ struct SeqRun
         if (g_seq_call_hook)
             g_seq_call_hook("");
         note({res});
+        mirror_D(op, {res});
         writes[op.val]     = WriteInfo{k, false};
         const int64_t dl   = eff_deadline(op.ttl_ms);
         bool          created = false, updated = false;
@@ -1071,6 +1060,7 @@ struct SeqRun
         ++s_calls_step;
         Found f = with_count ? S->find_uc(k, op.peek) : S->find(k, op.peek);
         note({f.hit, f.val, (int64_t)f.count});
+        mirror_D(op, with_count ? Result{f.hit, f.val, (int64_t)f.count} : Result{f.hit, f.val});
         eval("C01");
         if (isLive)
         {
@@ -1145,6 +1135,7 @@ struct SeqRun
         ++s_calls_step;
         bool res = S->erase(k);
         note({res});
+        mirror_D(op, {res});
         if (isLive)
         {
             if (res)
@@ -1182,6 +1173,7 @@ struct SeqRun
                 fail({"C01"}, "lookup.erased_key_found", "key " + std::to_string(k) + " still found after erase returned true");
                 return res;
             }
+            twin_probe(k, f, "after erase");
         }
         std::set<int> missing = probe_live("after erase");
         if (failed())
@@ -1343,6 +1335,7 @@ struct SeqRun
                 ++st.calls;
                 size_t got = S->age();
                 note({(int64_t)got});
+                mirror_D(op, {(int64_t)got});
                 r.push_back((int64_t)got);
                 eval("C14");
                 if (got != want)
@@ -1359,6 +1352,7 @@ struct SeqRun
                 ++s_calls_step;
                 size_t got = S->clean();
                 note({(int64_t)got});
+                mirror_D(op, {(int64_t)got});
                 r.push_back((int64_t)got);
                 eval("C17");
                 if (z0 > 0)
@@ -1388,6 +1382,7 @@ struct SeqRun
             {
                 ++st.calls;
                 S->clear();
+                mirror_D(op, {});
                 for (auto& kv : live)
                 {
                     gone[kv.first] = Gone::cleared;
@@ -1409,6 +1404,7 @@ struct SeqRun
             case OpKind::update_ttl:
                 ++st.calls;
                 S->update_ttl(op.ttl_ms);
+                mirror_D(op, {});
                 if (op.ttl_ms < cur_ttl_ms)
                     st.bump("fault.ttl_shortened");
                 else if (op.ttl_ms > cur_ttl_ms)
@@ -1417,12 +1413,15 @@ struct SeqRun
                 break;
             case OpKind::size:
                 r.push_back((int64_t)S->size());
+                mirror_D(op, r);
                 break;
             case OpKind::empty:
                 r.push_back(S->empty());
+                mirror_D(op, r);
                 break;
             case OpKind::capacity:
                 r.push_back((int64_t)S->capacity());
+                mirror_D(op, r);
                 break;
             default:
                 break;
@@ -1462,7 +1461,8 @@ struct SeqRun
         return out;
     }
 
-    void apply_to_D(const Op& op, const Result& sres, bool exempt = false)
+    // D mirrors S call by call (the op here, the probes in twin_probe), so every result must be equal.
+    void mirror_D(const Op& op, const Result& sres)
     {
         if (!D)
             return;
@@ -1471,15 +1471,7 @@ struct SeqRun
         note(d);
         eval("C20");
         nt("C20");
-        if (d != sres && (exempt || (is_ttl() && op.kind == OpKind::clean)))
-        {
-            // S gets lookups (the probes inside a call's analysis) that D does not: expired entries may be
-            // reaped at different moments, which is allowed to show in exactly these results
-            st.bump("open.c20_exempt_result_differs");
-            if (op.kind != OpKind::clean && op.kind != OpKind::erase)
-                D.reset();
-        }
-        else if (d != sres)
+        if (d != sres)
         {
             if (!fail({"C20"}, "clear.twin_result",
                       std::string(op_name(op.kind)) + " returned " + result_str(sres) + " on the cleared instance but " +
@@ -1587,9 +1579,6 @@ struct SeqRun
                 Result r = single_on_S(s);
                 if (failed())
                     return;
-                apply_to_D(s, r, sx.first);
-                if (failed())
-                    return;
                 if (op.kind == OpKind::insert_range || op.kind == OpKind::erase_range)
                     count += r[0];
                 else
@@ -1647,9 +1636,6 @@ struct SeqRun
         else
         {
             Result r = single_on_S(op);
-            if (failed())
-                return;
-            apply_to_D(op, r, exempt.first);
             if (failed())
                 return;
             if (R)
